@@ -5,7 +5,7 @@ use crate::props::c03::{run_connection, Case};
 use engine::{Outcome, Report, Src};
 
 pub const LEVEL: &str = "exploration";
-pub const RULE: &str = "case = (connector configuration with names / credentials drawn from empty, ASCII, Latin-1, CJK, combining, emoji and mixed strings whose UTF-8 and UTF-16 lengths straddle 15/16/32; screen sizes; layouts; server-assigned identifiers). Every byte the client writes during connect, activation and shutdown is parsed by the strict reference parsers (TPKT length, X.224 LI, BER/PER lengths, GCC block lengths, CS_CORE size and 32-byte NUL-terminated client name, cb* counts and terminators, totalLength / uncompressedLength, lengthSourceDescriptor, lengthCombinedCapabilities = 4 + sum, numberCapabilities, lengthCapability and specified capability sizes, numEvents) and decoded values are compared with the configuration. Section string-lengths also puts strings with a meaning of their own ('.', '..', a leading byte order mark ...) and every edge code point at the start and at the end of each string field. Section string-lengths: every length 0..=256 of domain / user / password (ASCII and surrogate pairs) and 0..=40 of the client name. Section connection-request: x224::Client::connect for offered masks {0,1,2,3,8,0xB,0x10,0xFFFFFFFF} x restricted admin x blank credentials, the written request parsed strictly (TPKT length, LI, RDP_NEG_REQ flags / length / mask). Section ntlm-tokens: NEGOTIATE / AUTHENTICATE tokens against CHALLENGE messages whose MaxLen fields exceed Len. Non-trivial = a non-ASCII or over-long (> 15 UTF-16 units) string, or an identifier >= 0x80; distinct by hash of the case.";
+pub const RULE: &str = "case = (connector configuration with names / credentials drawn from empty, ASCII, Latin-1, CJK, combining, emoji and mixed strings whose UTF-8 and UTF-16 lengths straddle 15/16/32; screen sizes; layouts; server-assigned identifiers). Every byte the client writes during connect, activation and shutdown is parsed by the strict reference parsers (TPKT length, X.224 LI, BER/PER lengths, GCC block lengths, CS_CORE size and 32-byte NUL-terminated client name, cb* counts and terminators, totalLength / uncompressedLength, lengthSourceDescriptor, lengthCombinedCapabilities = 4 + sum, numberCapabilities, lengthCapability and specified capability sizes, numEvents) and decoded values are compared with the configuration. Section string-lengths also puts strings with a meaning of their own ('.', '..', a leading byte order mark ...) and every edge code point at the start and at the end of each string field. Section string-lengths: every length 0..=256 of domain / user / password (ASCII and surrogate pairs) and 0..=40 of the client name. Section connection-request: x224::Client::connect for offered masks {0,1,2,3,8,0xB,0x10,0xFFFFFFFF} x restricted admin x blank credentials, with and without an authentication object, and with authentication objects whose domain / user have every length 0..=300 (1- to 4-byte UTF-8 characters) or are generated strings; the written request parsed strictly (TPKT length, LI = TPKT length - 5, optional routing token / cookie line, RDP_NEG_REQ flags / length / mask). Section ntlm-tokens: NEGOTIATE / AUTHENTICATE tokens against CHALLENGE messages whose MaxLen fields exceed Len. Non-trivial = a non-ASCII or over-long (> 15 UTF-16 units) string, or an identifier >= 0x80; distinct by hash of the case.";
 
 pub fn run(c: &Case) -> Outcome {
     let mut out = run_connection(c, true);
@@ -37,6 +37,12 @@ pub struct CrCase {
     pub mask: u32,
     pub restricted: bool,
     pub blank: bool,
+    /// the identity of the authentication object handed to connect (None = the fixed d / u / p)
+    #[serde(default)]
+    pub identity: Option<(String, String, String)>,
+    /// no authentication object at all
+    #[serde(default)]
+    pub no_auth: bool,
 }
 
 pub fn run_cr(c: &CrCase) -> Outcome {
@@ -44,13 +50,19 @@ pub fn run_cr(c: &CrCase) -> Outcome {
     use rdp::core::{tpkt, x224};
     use rdp::model::link::{Link, Stream};
     let mut out = Outcome::new();
-    out.nontrivial(c.mask != 3 || c.restricted);
+    out.nontrivial(c.mask != 3 || c.restricted || c.identity.is_some() || c.no_auth);
+    if let Some((d, u, _)) = &c.identity {
+        if d.len() + u.len() > 222 {
+            out.label("identity-longer-than-an-8-bit-length");
+        }
+    }
     let (reader, _h, _e) = ChunkReader::new(vec![], vec![]);
     let wrote = reader.written.clone();
     let tp = tpkt::Client::new(Link::new(Stream::Raw(reader)));
-    let mut ntlm = rdp::nla::ntlm::Ntlm::new("d".into(), "u".into(), "p".into());
-    let (m, ra, bl) = (c.mask, c.restricted, c.blank);
-    let (r, _) = crate::util::call(move || x224::Client::connect(tp, m, false, Some(&mut ntlm), ra, bl).map(|_| ()));
+    let (d, u, pw) = c.identity.clone().unwrap_or(("d".into(), "u".into(), "p".into()));
+    let mut ntlm = rdp::nla::ntlm::Ntlm::new(d, u, pw);
+    let (m, ra, bl, na) = (c.mask, c.restricted, c.blank, c.no_auth);
+    let (r, _) = crate::util::call(move || x224::Client::connect(tp, m, false, if na { None } else { Some(&mut ntlm) }, ra, bl).map(|_| ()));
     if let crate::util::Res::Panic(p) = r {
         crate::util::fail_panic(&mut out, "x224.connect", &p);
         return out;
@@ -83,11 +95,36 @@ pub fn check(rep: &Report) {
     for mask in [0u32, 1, 2, 3, 8, 0xB, 0x10, 0xFFFF_FFFF] {
         for restricted in [false, true] {
             for blank in [false, true] {
-                crs.push(CrCase { mask, restricted, blank });
+                crs.push(CrCase { mask, restricted, blank, identity: None, no_auth: false });
+                crs.push(CrCase { mask, restricted, blank, identity: None, no_auth: true });
             }
         }
     }
+    // the identity of the authentication object: every length 0..=300 of domain and of user (one-, two-, three- and
+    // four-byte UTF-8 characters), and the strings with a meaning of their own
+    for n in 0..=300usize {
+        for (k, ch) in ["x", "\u{E9}", "\u{4E2D}", "\u{1F511}"].iter().enumerate() {
+            if k > 0 && n > 130 {
+                continue;
+            }
+            crs.push(CrCase { mask: 3, restricted: false, blank: false, identity: Some((ch.repeat(n), "u".into(), "p".into())), no_auth: false });
+            crs.push(CrCase { mask: 3, restricted: n % 2 == 1, blank: false, identity: Some(("D".into(), ch.repeat(n), "p".into())), no_auth: false });
+            crs.push(CrCase { mask: 1, restricted: false, blank: n % 2 == 1, identity: Some((ch.repeat(n / 2), ch.repeat(n - n / 2), ch.repeat(n))), no_auth: false });
+        }
+    }
+    for m in crate::mem::MAGIC_STRINGS {
+        crs.push(CrCase { mask: 3, restricted: false, blank: false, identity: Some((m.to_string(), "u".into(), "p".into())), no_auth: false });
+        crs.push(CrCase { mask: 3, restricted: false, blank: false, identity: Some(("d".into(), m.to_string(), "p".into())), no_auth: false });
+    }
     rep.list("connection-request", crs, run_cr);
+    rep.random("connection-request-random", rep.tier.n(20_000, 1_000_000), 120, |s| {
+        let mask = s.pick(&[0u32, 1, 2, 3, 8, 0xB, 0x10, 0xFFFF_FFFF]);
+        let bits = s.u8();
+        let long = s.chance(40);
+        let mut g = |s: &mut Src| if long { gen_string(s, 64).repeat(1 + s.below(6)) } else { gen_string(s, 64) };
+        let identity = Some((g(s), g(s), g(s)));
+        CrCase { mask, restricted: bits & 1 != 0, blank: bits & 2 != 0, identity, no_auth: bits & 0x1C == 0x1C }
+    }, run_cr);
     // every length 0..=256 of each credential string and 0..=40 of the client name (the Client Info PDU and CS_CORE
     // cross their length-encoding boundaries), ASCII and two-unit characters
     let mut lens = Vec::new();
